@@ -1294,6 +1294,23 @@ def repr_modelled(v):
     return True
 
 
+_PRETTY_MARK = "\x01<S>\x02"
+
+
+def pretty_statements_o(dd):
+    """the statements of pretty(), split on the statement structure (pretty(prefix=MARK) puts MARK in front of every
+    statement) and not on newlines, which may be part of a rendered value ('a\\nc\\n'); empty statements dropped as before.
+    The plain pretty() text must be the marked text without the marks."""
+    marked = dd.pretty(prefix=_PRETTY_MARK)
+    if dd.pretty() != marked.replace(_PRETTY_MARK, ""):
+        raise ValueError("pretty() and pretty(prefix=...) give different texts")
+    if marked == "":
+        return []
+    if not marked.startswith(_PRETTY_MARK):
+        raise ValueError("pretty(prefix=...) does not start with the prefix")
+    return [l for l in marked[len(_PRETTY_MARK):].split("\n" + _PRETTY_MARK) if l]
+
+
 def c10_pair(ctx, t1, t2, cases, corr=True):
     thr = ctx.rng.choice(THRS)
     zip_ = ctx.rng.random() < 0.3
@@ -1309,8 +1326,8 @@ def c10_pair(ctx, t1, t2, cases, corr=True):
     ctx.seen(("c10", repr(t1), repr(t2), zip_, thr, verbose), nontrivial=bool(tx))
     case = _case(t1, t2, **cfg)
     try:
-        lines_tree = [l for l in tr.pretty().split("\n") if l]
-        lines_text = [l for l in tx.pretty().split("\n") if l]
+        lines_tree = pretty_statements_o(tr)
+        lines_text = pretty_statements_o(tx)
         d_over = tr.to_dict(view_override="text")
         d_text = tx.to_dict()
     except Exception as e:
